@@ -551,3 +551,24 @@ def pz_rback(dd, regions, values, mask, c8, nx, p):
         ((not pz_has_S(p, nx)) or pz_rlink(dd, regions, values, mask, p, p - nx)) and \
         ((not (c8 and pz_has_S(p, nx) and pz_has_W(p, nx))) or pz_rlink(dd, regions, values, mask, p, p - nx - 1)) and \
         ((not (c8 and pz_has_S(p, nx) and p % nx < nx - 1)) or pz_rlink(dd, regions, values, mask, p, p - nx + 1))
+
+
+# ------------------------------------------------------------------ C15 boundary walk: the corner at which the current edge starts
+# forward: +1 E (along the S edge), -1 W (along the N edge), +nx N (along the E edge), -nx S (along the W edge); needs nx >= 2
+def fw_cx(ij, forward, nx):
+    return ij % nx + (1 if (forward == -1 or forward == nx) else 0)
+
+
+def fw_cy(ij, forward, nx):
+    return ij // nx + (1 if (forward == -1 or forward == -nx) else 0)
+
+
+def fw_along(px, py, qx, qy, heading, g, nx):
+    # q = p + g steps in direction `heading`
+    return ((heading != 1 or (qx == px + g and qy == py)) and (heading != -1 or (qx == px - g and qy == py))
+            and (heading != nx or (qx == px and qy == py + g)) and (heading != -nx or (qx == px and qy == py - g)))
+
+
+def fw_one_axis(px, py, qx, qy):
+    # the two points differ in exactly one coordinate
+    return (px == qx and py != qy) or (px != qx and py == qy)
